@@ -7,8 +7,10 @@ package auth
 
 // The credentials checked are the credentials the client sent: the name and the password
 // handed to Authenticate are the fields decoded from the request body, byte for byte
-// (jsonfield(text, name): the value of field name in the JSON text, encoding/json assumed).
+// (jsonfield(text, name): the value of field name in the JSON text, jsonhas: whether the text has
+// it - a field the body does not mention is empty, never a value left over from an earlier request;
+// encoding/json assumed).
 //@ props C20
 //@ func LoginEndpoint.Post
 //@   requires r != nil && specStoreWF()
-//@   ghost callsite-requires [C20] Authenticate sid(arg_self.Password) == jsonfield(readall(r.Body), sid("Password")) && sid(arg_self.Username) == jsonfield(readall(r.Body), sid("Username"))
+//@   ghost callsite-requires [C20] Authenticate sid(arg_self.Password) == (jsonhas(readall(r.Body), sid("Password")) ? jsonfield(readall(r.Body), sid("Password")) : sid("")) && sid(arg_self.Username) == (jsonhas(readall(r.Body), sid("Username")) ? jsonfield(readall(r.Body), sid("Username")) : sid(""))
